@@ -7,6 +7,9 @@ use std::time::{Duration, Instant};
 use vharness::ctx::*;
 use vharness::props;
 
+#[global_allocator]
+static ALLOC: vharness::util::CountingAlloc = vharness::util::CountingAlloc;
+
 const VERIF: &str = "/verif";
 
 fn usage() -> ! {
